@@ -51,15 +51,16 @@ type LiveOp struct {
 }
 
 type Desc struct {
-	Kind     string   `json:"kind"` // sched | live | run
-	Mode     string   `json:"mode,omitempty"`
-	Reqs     [][2]int `json:"reqs,omitempty"`
-	Machs    [][2]int `json:"machs,omitempty"`
-	Maxprocs int      `json:"maxprocs,omitempty"`
-	LoadNum  int      `json:"loadnum,omitempty"`
-	LoadDen  int      `json:"loadden,omitempty"`
-	Maxp     int      `json:"maxp,omitempty"`
-	Ops      []LiveOp `json:"ops,omitempty"`
+	Kind     string     `json:"kind"` // sched | sweep | live | run
+	Mode     string     `json:"mode,omitempty"`
+	Reqs     [][2]int   `json:"reqs,omitempty"`
+	Machs    [][2]int   `json:"machs,omitempty"`
+	MachSets [][][2]int `json:"machsets,omitempty"` // sweep: the machine queues tried against Reqs
+	Maxprocs int        `json:"maxprocs,omitempty"`
+	LoadNum  int        `json:"loadnum,omitempty"`
+	LoadDen  int        `json:"loadden,omitempty"`
+	Maxp     int        `json:"maxp,omitempty"`
+	Ops      []LiveOp   `json:"ops,omitempty"`
 }
 
 // ---------------------------------------------------------------- (i) schedule()
@@ -72,7 +73,40 @@ func keyList(ks [][2]int) string {
 	return vf.List(ss)
 }
 
-func schedCase(d Desc) (c vf.Case) {
+// sweepCase runs one request queue against every machine queue of d.MachSets.
+func sweepCase(d Desc) (c vf.Case) {
+	c.Desc = d
+	c.Sig = "C14/schedule"
+	c.Kind = "sweep/none"
+	runs := make([]string, len(d.MachSets))
+	granted := 0
+	for i, ms := range d.MachSets {
+		one := schedCase(Desc{Kind: "sched", Reqs: d.Reqs, Machs: ms})
+		runs[i] = vf.Tuple(keyList(ms), one.obsTerm)
+		if strings.HasPrefix(one.Kind, "sched/granted") {
+			granted++
+		}
+		if one.Kind == "sched/panic" {
+			c.Kind = "sweep/panic"
+		}
+	}
+	if granted > 0 && c.Kind != "sweep/panic" {
+		c.Kind = "sweep/some-granted"
+	}
+	c.Term = vf.App("CSchedMany", keyList(d.Reqs), vf.List(runs))
+	if len(d.Reqs) > 0 {
+		c.Nontriv = vf.Hash(fmt.Sprint(d.Reqs))
+	}
+	c.Observed = map[string]interface{}{"configurations": len(d.MachSets), "granted": granted}
+	return c
+}
+
+type schedResult struct {
+	vf.Case
+	obsTerm string // the (mkSO ...) term alone
+}
+
+func schedCase(d Desc) (c schedResult) {
 	c.Desc = d
 	c.Sig = "C14/schedule"
 	reqs := make([]exec.VerifC14Req, len(d.Reqs))
@@ -115,9 +149,9 @@ func schedCase(d Desc) (c vf.Case) {
 		kind = "sched/panic"
 	}
 	// a panic shows up as lost queues and failed flags
-	c.Term = vf.App("CSched", keyList(d.Reqs), keyList(d.Machs),
-		vf.App("mkSO", choice, keyList(ra), keyList(ma),
-			vf.Bool(res.IndexesOK && !panicked), vf.Bool(res.HeapsOK && !panicked), vf.Bool(res.ChosenAtRoot)))
+	c.obsTerm = vf.App("mkSO", choice, keyList(ra), keyList(ma),
+		vf.Bool(res.IndexesOK && !panicked), vf.Bool(res.HeapsOK && !panicked), vf.Bool(res.ChosenAtRoot))
+	c.Term = vf.App("CSched", keyList(d.Reqs), keyList(d.Machs), c.obsTerm)
 	c.Kind = kind
 	if len(d.Reqs) > 0 && len(d.Machs) > 0 {
 		// interesting when the head request does not simply fit the head machine
@@ -149,7 +183,7 @@ func multisets(nkeys, max int) [][]int {
 
 // exhaustive sweep: requests over priorities {0..nprio-1} x procs {1..maxprocs},
 // machines of capacity maxprocs with load 0..maxprocs.
-func sweep(out *vf.Output, nprio, maxprocs, maxreq, maxmach int) int {
+func sweep(out *vf.Output, nprio, maxprocs, maxreq, maxmach int, grouped bool) int {
 	var rkeys, mkeys [][2]int
 	for p := 0; p < nprio; p++ {
 		for n := 1; n <= maxprocs; n++ {
@@ -160,6 +194,25 @@ func sweep(out *vf.Output, nprio, maxprocs, maxreq, maxmach int) int {
 		mkeys = append(mkeys, [2]int{maxprocs, l})
 	}
 	n := 0
+	if grouped {
+		// one case per request queue (the case file format counts cases in unary)
+		for _, rs := range multisets(len(rkeys), maxreq) {
+			d := Desc{Kind: "sweep"}
+			for _, k := range rs {
+				d.Reqs = append(d.Reqs, rkeys[k])
+			}
+			for _, ms := range multisets(len(mkeys), maxmach) {
+				set := [][2]int{}
+				for _, k := range ms {
+					set = append(set, mkeys[k])
+				}
+				d.MachSets = append(d.MachSets, set)
+				n++
+			}
+			out.Add(sweepCase(d))
+		}
+		return n
+	}
 	for _, rs := range multisets(len(rkeys), maxreq) {
 		for _, ms := range multisets(len(mkeys), maxmach) {
 			d := Desc{Kind: "sched"}
@@ -169,7 +222,7 @@ func sweep(out *vf.Output, nprio, maxprocs, maxreq, maxmach int) int {
 			for _, k := range ms {
 				d.Machs = append(d.Machs, mkeys[k])
 			}
-			c := schedCase(d)
+			c := schedCase(d).Case
 			c.Kind = "sweep/" + strings.TrimPrefix(c.Kind, "sched/")
 			out.Add(c)
 			n++
@@ -949,7 +1002,7 @@ func runCase(d Desc) vf.Case {
 
 type nopOut struct{}
 
-func (nopOut) Level() log.Level                  { return log.Off }
+func (nopOut) Level() log.Level                    { return log.Off }
 func (nopOut) Output(int, log.Level, string) error { return nil }
 
 func main() {
@@ -972,8 +1025,10 @@ func main() {
 				out.Add(replayLive(d))
 			case "run":
 				out.Add(runCase(d))
+			case "sweep":
+				out.Add(sweepCase(d))
 			default:
-				out.Add(schedCase(d))
+				out.Add(schedCase(d).Case)
 			}
 		}
 	} else {
@@ -985,18 +1040,18 @@ func main() {
 		nLive *= opts.Scale
 		var swept int
 		if opts.Tier == "thorough" {
-			swept = sweep(out, 2, 4, 4, 4)
+			swept = sweep(out, 2, 4, 4, 4, true)
 			out.Extra["exhaustive"] = true
 			out.Extra["sweep"] = "all multisets of <=4 requests over priorities {0,1} x procs {1..4} and <=4 machines of capacity 4 with load 0..4: " + strconv.Itoa(swept) + " configurations"
 		} else {
-			swept = sweep(out, 2, 2, 2, 3)
+			swept = sweep(out, 2, 2, 2, 3, false)
 			out.Extra["exhaustive"] = false
 			out.Extra["sweep"] = "quick: all multisets of <=2 requests over priorities {0,1} x procs {1,2} and <=3 machines of capacity 2: " + strconv.Itoa(swept) + " configurations; the full sweep runs in the thorough tier"
 		}
 		rs := root.Split()
 		for i := 0; i < nSched; i++ {
 			r := rs.Split()
-			out.Add(schedCase(randomSched(r)))
+			out.Add(schedCase(randomSched(r)).Case)
 		}
 		rl := root.Split()
 		for i := 0; i < nLive; i++ {
